@@ -27,7 +27,22 @@ where
     let reduced = case["reduced"].as_bool().unwrap();
     let l = link_of(&pd);
     let kh = KhHomology::<R>::new(&l, &R::from_int(h), &R::from_int(t), reduced);
-    let g = graded_of(&kh);
+    let mut g = graded_of(&kh);
+    // restricting the answer to a range of homological degrees returns exactly that part of it
+    if let (Some(tr), Ok(full)) = (case.get("trunc").and_then(|v| v.as_array()), &g) {
+        use yui_homology::GridTrait;
+        let sup: Vec<isize> = kh.support().collect();
+        if let (Some(&lo0), Some(&hi0)) = (sup.iter().min(), sup.iter().max()) {
+            let (lo, hi) = (lo0 + tr[0].as_i64().unwrap() as isize, hi0 - tr[1].as_i64().unwrap() as isize);
+            let part = if lo <= hi { graded_of(&kh.truncated(lo..=hi)) } else { Ok(Graded::new()) };
+            let want: Graded = full.iter().filter(|(i, _)| (lo..=hi).contains(&(**i as isize))).map(|(i, t)| (*i, t.clone())).collect();
+            match part {
+                Ok(p) if p == want => {}
+                Ok(p) => g = Err(format!("truncated({lo}..={hi}) of {} is {}", describe_graded(full), describe_graded(&p))),
+                Err(e) => g = Err(format!("truncated({lo}..={hi}): {e}")),
+            }
+        }
+    }
     let big = (h == 0 && t == 0).then(|| (bigraded_of(&kh.into_bigraded()), bigraded_via_complex::<R>(&l, reduced)));
     (g, big)
 }
@@ -95,6 +110,9 @@ where
             }
         }
     }
+    // a heavily kinked diagram is compared with the definition applied to the kink-free diagram
+    // (Reidemeister-1 invariance of the homology the definition computes)
+    let pd = match case.get("ref_pd") { Some(v) if !v.is_null() => { rep.counters.insert("kinked_over_32_crossings".into(), 1); pd_from_json(v) } _ => pd };
     if pd.len() > case["ref_max"].as_u64().unwrap_or(REF_MAX_CROSSINGS as u64) as usize {
         rep.counters.insert("cross_run_only".into(), 1);
         return rep;
@@ -161,16 +179,26 @@ impl Check for C01 {
         // ~1% big diagrams (cross-run oracle only); thorough adds a few giant ones
         let big = rng.chance(1, if tier == "quick" { 150 } else { 100 });
         let giant = tier != "quick" && rng.chance(1, 4000);
-        let (name, pd) = if giant { diag::draw_giant(rng) } else if big { diag::draw_big(rng, tier != "quick") } else { diag::draw(rng, max_x) };
+        let kinked = !big && !giant && rng.chance(1, 120);
+        let mut ref_pd = Value::Null;
+        let (name, pd) = if giant { diag::draw_giant(rng) } else if big { diag::draw_big(rng, tier != "quick") } else if kinked {
+            let (n, p, b) = diag::draw_kinked(rng);
+            ref_pd = pd_to_json(&b);
+            (n, p)
+        } else { diag::draw(rng, max_x) };
         let pd = diag::permute_crossings(rng, &pd);
         let ring = if big || giant { *rng.pick(&["Z", "ZB", "F2", "F3"]) } else { *rng.pick(&["Z", "Z", "ZB", "Q", "F2", "F3"]) };
         let (mut h, mut t) = draw_ht(rng);
-        if big || giant { h = 0; t = 0; }
+        // (the library's cost on big and on heavily kinked diagrams explodes for h or t != 0)
+        if big || giant || kinked { h = 0; t = 0; }
         if ring == "Z" && pd.len() > 7 && (h.abs() > 1 || t.abs() > 1) { h = 1; t = 0; }
         let reduced = t == 0 && !pd.is_empty() && rng.chance(1, 3);
         // the cube-of-resolutions reference costs ~0.5 s per new 10-crossing input: thorough only
         let ref_max = if tier == "quick" { REF_MAX_CROSSINGS } else { REF_MAX_CROSSINGS + 1 };
-        json!({ "name": name, "pd": pd_to_json(&pd), "ring": ring, "h": h, "t": t, "reduced": reduced, "ref_max": ref_max })
+        let mut case = json!({ "name": name, "pd": pd_to_json(&pd), "ring": ring, "h": h, "t": t, "reduced": reduced, "ref_max": ref_max });
+        if !ref_pd.is_null() { case["ref_pd"] = ref_pd; }
+        if rng.chance(1, 6) { case["trunc"] = json!([rng.below(3), rng.below(3)]); }
+        case
     }
     fn run_case(&self, case: &Value, ex: &mut Executor) -> RunReport {
         let ring = case["ring"].as_str().unwrap();
